@@ -96,6 +96,10 @@ def setup_worker(ctx):
     ctx.state['info'] = info
     ctx.state['facade'] = xmlserver.Facade(fconn)
     ctx.state['pool'] = []
+    by_op = {}
+    for r in c02.load_recordings():
+        by_op.setdefault(r[0], []).append(r)
+    ctx.state['recordings'] = by_op
     ctx.state['tmp'] = os.environ.get('VERIF_WORKDIR') or tempfile.mkdtemp()
     os.makedirs(ctx.state['tmp'], exist_ok=True)
     reset_logging()
@@ -274,7 +278,10 @@ def run_case(ctx, i, rng):
         args = ('VF_Other',)      # the long non-ASCII instances
     rclass = rng.choice(['valid', 'valid', 'valid', 'cimerror-nonascii',
                          'mutated', 'garbage', 'invalid', 'http', 'fault',
-                         'valid-reencoded'])
+                         'valid-reencoded', 'recorded'])
+    recs = st.get('recordings', {}).get(op)
+    if rclass == 'recorded' and not recs:
+        rclass = 'valid'
     if op in QUERY_OPS and rng.random() < 0.7:
         rclass = 'canned-query'
     if not pool and rclass == 'mutated':
@@ -330,6 +337,9 @@ def run_case(ctx, i, rng):
             ans = transport.Scripted(body=body)
         elif rclass == 'canned-query':
             ans = transport.Scripted(body=canned_query_answer(rng, op))
+        elif rclass == 'recorded':
+            # a server answer recorded in the repository's function tests
+            ans = transport.Scripted(body=rng.choice(recs)[2])
         elif rclass == 'valid-reencoded':
             ans = transport.Scripted(body=reencode(rng, valid_answer(request)))
         elif rclass == 'cimerror-nonascii':
